@@ -18,7 +18,7 @@ Require Import RV.Model.Base RV.Model.Ring.
 Require RV.Model.Flow.
 Require Import RV.Model.QueueSpec.
 Require Import RV.Proofs.RingBase RV.Proofs.RingInv RV.Proofs.RingInv2 RV.Proofs.RingTheorems RV.Proofs.RingProgress
-               RV.Proofs.RingRefine RV.Proofs.RingEF.
+               RV.Proofs.RingRefine RV.Proofs.RingEF RV.Proofs.RingPayload.
 Require RV.Proofs.FlowProofs.
 Import ListNotations.
 Local Open Scope nat_scope.
@@ -69,17 +69,44 @@ Theorem C02_slot_owner : forall k start st, reachable k start st ->
   (forall p st', lstep k st (RDeliver p) = Some st' ->
      exists s, rpc st = RHold s (Some p) /\ wt (slots st s) = [p] /\ bc (slots st s) = [] /\ recv st' = (p, p) :: recv st) /\
   own_results (recv st) = true /\
-  (forall s it, rpc st = RHold s it -> forall p, lstep k st (PutLock p s) = None) /\
-  (forall s i p st', und st s = Some i -> lstep k st (PutLock p s) = Some st' ->
+  (forall s it, rpc st = RHold s it -> forall p m, lstep k st (PutLock p s m) = None) /\
+  (forall s i p m st', und st s = Some i -> lstep k st (PutLock p s m) = Some st' ->
      fillseq (slots st' s) = fillseq (slots st s) /\ und st' s = Some i).
 Proof.
   intros k start st Hr. split; [|split; [|split]].
   - intros p st' Hl. eapply ring_own_result; eassumption.
   - eapply ring_all_own_results; eassumption.
-  - intros s it Hh p. eapply ring_lock_tenure; eassumption.
-  - intros s i p st' Hu Hl. eapply ring_slot_owner; eassumption.
+  - intros s it Hh p m. eapply ring_lock_tenure; eassumption.
+  - intros s i p m st' Hu Hl. eapply ring_slot_owner; eassumption.
 Qed.
 Print Assumptions C02_slot_owner.
+
+(** payload own.  The slot stores the tuple (one, multi, resps) the code stores: PutOne writes [one] only,
+    PutMulti writes [multi] and [resps] only, NextResultCh resets all three when it frees the slot.  In every
+    reachable state a free slot holds the zero tuple and an occupied slot holds exactly what its occupant
+    supplied ([own p false] = (cmd p, nil, nil) for PutOne, [own p true] = (zero, multi p, resps p) for PutMulti);
+    a fill stores exactly the caller's payload; and the tuples handed to the reader and to the writer are the
+    own tuples of the item they take - for every schedule, ring size and lap, in particular when a PutOne
+    re-uses the slot a PutMulti used one lap earlier. *)
+Theorem C02_payload_own : forall k start st, reachable k start st ->
+  (forall s, slot_ok (slots st s)) /\
+  (forall p s m st', lstep k st (PutLock p s m) = Some st' ->
+     length (fillseq (slots st' s)) = S (length (fillseq (slots st s))) ->
+     payload (slots st' s) = Some p /\ pm (slots st' s) = m /\ trip (slots st' s) = own p m /\
+     fillseq (slots st' s) = fillseq (slots st s) ++ [p]) /\
+  (forall st' s i, lstep k st RNext = Some st' -> rpc st' = RHold s (Some i) ->
+     s = idx k (u32 (read2 st + 1)) /\ payload (slots st s) = Some i /\ handed k st RNext = own i (pm (slots st s)) /\
+     trip (slots st' s) = (None, None, None)) /\
+  (forall l st', (l = WNext \/ l = WWaitEnter \/ l = WWaitRetry) -> lstep k st l = Some st' -> n1 st' = S (n1 st) ->
+     exists s i, payload (slots st s) = Some i /\ wseq st' = wseq st ++ [i] /\
+       fst (handed k st l) = fst (own i (pm (slots st s)))).
+Proof.
+  intros k start st Hr. split; [apply (invp_reachable k start st Hr)|]. split; [|split].
+  - intros p s m st' Hl Hlen. eapply fill_supplies; eassumption.
+  - intros st' s i Hl Hh. eapply reader_handout_own; eassumption.
+  - intros l st' Hlab Hl Hn. eapply writer_handout_own; eassumption.
+Qed.
+Print Assumptions C02_payload_own.
 
 (** no lost wake-up.  L1: putters parked on a slot => the slot is occupied, or the reader holds its lock,
     or the reader is about to signal it, or one of them is already woken.  L2: the writer parked on a
@@ -106,7 +133,7 @@ Print Assumptions C02_not_stuck.
     it waits for the rest of position 1's replies - the writer blocks with whatever it has buffered (pipe.go
     flushes only when NextWriteCmd returns nothing).  In the repaired code the call never blocks. *)
 Definition d15_schedule : list label :=
-  [PutTicket; PutLock 1 1; WNext; RNext; PutTicket; PutLock 2 0; WNext].
+  [PutTicket; PutLock 1 1 true; WNext; RNext; PutTicket; PutLock 2 0 false; WNext].
 
 Theorem C02_next_write_blocks_orig :
   exists st, run 1 d15_schedule (init 0) = Some st /\ forallb (fun l => match l with WNextBusy => false | _ => true end) d15_schedule = true /\
@@ -177,7 +204,7 @@ Print Assumptions C02_flow_not_stuck.
     two of them parked on the same slot, the writer asleep: a reachable state with work pending *)
 Definition nv_schedule : list label :=
   [WWaitEnter; PutTicket; PutTicket; PutTicket; PutTicket; PutTicket;
-   PutLock 1 1; PutLock 3 1; PutLock 5 1; PutBcast 1 1; WWaitRetry; PutLock 2 0; WNext; RNext].
+   PutLock 1 1 true; PutLock 3 1 false; PutLock 5 1 true; PutBcast 1 1; WWaitRetry; PutLock 2 0 false; WNext; RNext].
 
 Example C02_nonvacuous :
   exists st, run 1 nv_schedule (init 4294967294) = Some st /\
@@ -188,4 +215,13 @@ Proof. eexists. split; [vm_compute; reflexivity|]. repeat split. Qed.
 Example C02_flow_nonvacuous :
   exists st, Flow.run 2 [Flow.FTake; Flow.FTake; Flow.FPutW 2; Flow.FPutW 1; Flow.FWTake; Flow.FPutR; Flow.FRTake] (Flow.init 2) = Some st /\
     Flow.sent st = [2; 1] /\ Flow.wseq st = [2] /\ Flow.rseq st = [2] /\ Flow.tokens st = 2.
+Proof. eexists. split; [vm_compute; reflexivity|]. repeat split. Qed.
+
+(** non-vacuity of [C02_payload_own]: on a 2-slot ring putter 1 (PutMulti) uses slot 1 and is answered, then one
+    lap later putter 3 (PutOne) uses slot 1 again: the reader is handed (cmd 3, nil, nil), not putter 1's slices *)
+Example C02_payload_nonvacuous :
+  exists st, run 1 [PutTicket; PutLock 1 1 true; WNext; RNext; RDeliver 1; RUnlock; RSignal None;
+                    PutTicket; PutLock 2 0 false; WNext; RNext; RDeliver 2; RUnlock; RSignal None;
+                    PutTicket; PutLock 3 1 false; WNext] (init 0) = Some st /\
+    fillseq (slots st 1) = [1; 3] /\ handed 1 st RNext = (Some 3, None, None) /\ trip (slots st 0) = (None, None, None).
 Proof. eexists. split; [vm_compute; reflexivity|]. repeat split. Qed.
